@@ -215,9 +215,11 @@ def templates():
             t = p_c02.build(sh, car, car == 'Eq')
             return p_c02.emit(t, modname, cfgid, xf=xf)
         L.append((f'PartialEq:{S.shape_id(sh)}', mk))
-    for k, (fl, r, mode) in enumerate([(['p', 'm', 'i'], [7, -3, None], 'both_ord'), (['n', 'p', 'm'], [None, 0, -3], 'pord'), (['p', 'p'], [0, -3], 'ordonly'), (['m', 'n'], [None, None], 'pord')]):
+    for k, (fl, r, mode) in enumerate([(['p', 'm', 'i'], [7, -3, None], 'both_ord'), (['n', 'p', 'm'], [None, 0, -3], 'pord'), (['p', 'p'], [0, -3], 'ordonly'), (['m', 'n'], [None, None], 'pord'),
+                                       # every (handler, trait set) pair: the Ord handlers also emit the PartialOrd impl when both are educed
+                                       (['p', 'm'], [None, None], 'both_ord'), (['m', 'p'], [0, None], 'both_pord'), (['p', 'i', 'p'], [None, None, None], 'ordonly')]):
         def mk(modname, cfgid, xf, fl=fl, r=r, mode=mode, k=k):
-            shape, ranks = p_c03.place(fl, r, (0, 2, 4, 3)[k])
+            shape, ranks = p_c03.place(fl, r, (0, 2, 4, 3, 4, 3, 1)[k])
             return p_c03.emit(modname, cfgid, shape, ranks, mode, xf=xf)
         L.append((f'Ord:{"".join(fl)}/{mode}', mk))
     for sh in [('struct', [('named', ['p', 'i', 'm'])]), ('enum', [('named', ['m', 'w']), ('tuple', ['i', 'p']), ('unit', [])])]:
@@ -231,6 +233,14 @@ def templates():
         def mk(modname, cfgid, xf, spc=spc):
             return p_c06.emit(modname, cfgid, copy.deepcopy(spc), xf=xf, modes=('compact',))
         L.append((f'Debug:{D.spec_id(spc)}', mk))
+    # Debug requests in which no field shows a default key (renamed, positional or ignored): used with raw-identifier field names,
+    # whose default key the property does not define (`r#type` vs `type`)
+    for spc in [D.Spec('enum', True, [dict(kind='named', vname=None, nf=False, fields=['p', 'm']), dict(kind='named', vname='Rv', nf=None, fields=['r', 'b']), dict(kind='named', vname=False, nf=False, fields=['l', 'i'])]),
+                D.Spec('struct', 'Rn', [dict(kind='named', vname=None, nf=None, fields=['r', 'i', 'b'])]),
+                D.Spec('struct', None, [dict(kind='named', vname=None, nf=None, fields=['p', 'm', 'i'])], False)]:
+        def mk(modname, cfgid, xf, spc=spc):
+            return p_c06.emit(modname, cfgid, copy.deepcopy(spc), xf=xf, modes=('compact',))
+        L.append((f'DebugNoDefaultKey:{D.spec_id(spc)}', mk))
     for sh, cp in [(('struct', [('named', ['m', 'b', 'u'])]), False), (('enum', [('named', ['b', 'm']), ('tuple', ['u', 'b']), ('unit', [])]), False), (('enum', [('named', ['l', 'u']), ('unit', [])]), True)]:
         def mk(modname, cfgid, xf, sh=sh, cp=cp):
             return p_c07.emit(modname, cfgid, sh, cp, xf=xf)
@@ -333,6 +343,8 @@ def contexts(fields, upper, tier, seed):
            ('names-a', False, False, fa, None),
            ('names-b+shadow', True, False, fb, None),
            ('variants+glob', False, True, None, ['None', 'Some', 'Ok', 'Err', 'Ordering', 'Equal', 'Less', 'Greater', 'Option'] + vn[:6])]
+    # raw identifiers as field names: bindings derived from them (`_r#type` is not an identifier) must still be well-formed
+    ctx.append(('raw-identifiers', False, False, ['r#type', 'r#fn', 'r#match', 'r#loop', 'r#_0'], None, True))
     # names closed under the binding patterns of the generated code: a field x next to fields called like the
     # bindings the templates derive from x (format_ident! patterns harvested from /repo/src)
     _, _, pats, _ = hostile_names()
@@ -360,7 +372,11 @@ def gen(tier, seed):
             tag, shadow, glob, fns, vns = ctx[:5]
             exact = len(ctx) > 5 and ctx[5]
             inherent = len(ctx) > 6 and ctx[6]
-            if tier == 'quick' and (ti + ci) % 2 == 1 and tag not in ('shadow', 'inherent-methods'):
+            if tag == 'raw-identifiers' and name.startswith('Debug:'):
+                continue      # default keys of raw identifiers are not defined by the property
+            if name.startswith('DebugNoDefaultKey:') and tag not in ('raw-identifiers', 'shadow'):
+                continue
+            if tier == 'quick' and (ti + ci) % 2 == 1 and tag not in ('shadow', 'inherent-methods', 'raw-identifiers'):
                 continue
             model.TYPE_WRAP = make_wrap(shadow, glob, inherent)
             try:
@@ -383,12 +399,12 @@ def gen(tier, seed):
                 for mode in ('pord', 'ord', 'ordonly'):
                     if tier == 'quick' and (ci + pi + len(mode)) % 2 == 1 and not (payloads == ['none', 'none', 'none'] and mode == 'pord'):
                         continue
-                    model.TYPE_WRAP = make_wrap(shadow, glob)
+                    model.TYPE_WRAP = make_wrap(shadow, glob, inherent=(ci == 0))
                     try:
                         m = p_c04.emit(f'm{n:04d}', payloads, repr_, ds, mode)
                     finally:
                         model.TYPE_WRAP = None
-                    m.cfgid = 'OrdEnum:' + m.cfgid + f' @ shadow={int(shadow)} glob={int(glob)} variants={vn[:len(payloads)]}'
+                    m.cfgid = 'OrdEnum:' + m.cfgid + f' @ shadow={int(shadow)} glob={int(glob)} inherent={int(ci == 0)} variants={vn[:len(payloads)]}'
                     mods.append(m)
                     n += 1
     finally:
